@@ -380,6 +380,19 @@ def structInitBlockInner : Nat → List FieldContainer → Bool → ImplContext 
     let out ← wrapInit ctx typeHint namedFields (frags ++ updateToks ctx)
     return (out, rest)
 
+/-- the shape by which a flattened member's line is rendered: a `from` conversion reads the member straight from its
+    nested struct, so the hint given for that nested struct in `#[child_parents(..)]` applies (the counterpart's own
+    hint when there is no entry); the other directions keep the hint of the block being built -/
+def childLineHint (ctx : ImplContext) (ca : ChildAttr) (typeHint : TypeHint) : TypeHint :=
+  if ctx.kind.isFrom then
+    match ctx.input.attrs.childParentsAttr ctx.ty with
+    | none => typeHint
+    | some cpa =>
+      match cpa.childParents.find? (fun cd => cd.fieldPathStr == ca.childPath.strs.getLast?.getD "") with
+      | some cd => cd.typeHint
+      | none => typeHint
+  else typeHint
+
 /-- the `while let Some(..) = members.peek()` loop -/
 def structInitLoop : Nat → List FieldContainer → Bool → ImplContext → FieldCtx → TypeHint → TS → Nat → E (TS × List FieldContainer)
   | 0, _, _, _, _, _, _, _ => .error (.unsupported "fuel exhausted in struct_init_block_inner loop")
@@ -401,7 +414,7 @@ def structInitLoop : Nat → List FieldContainer → Bool → ImplContext → Fi
         match attrs.child ctx.ty with
         | some ca => do
           let (frag, rest') ← renderChildFragment fuel ca.childPath (fc :: rest) ctx depth typeHint
-            (fun _ => renderStructLine f ctx typeHint idx none)
+            (fun _ => renderStructLine f ctx (childLineHint ctx ca typeHint) idx none)
           structInitLoop fuel rest' namedFields ctx fieldCtx typeHint (frags ++ frag) (idx + 1)
         | none => do
           let line ← renderStructLine f ctx typeHint idx none
@@ -515,8 +528,8 @@ def structInitBlock (input : Struct) (ctx : ImplContext) : E TS := do
         | none => x.memberStr
       let (gp, fc, _) := makeTuple st.1 path (.field x)
       (gp, st.2 ++ [fc])) (gp0, [])
-  -- struct-level ghosts that open a group of their own
-  let (_, fields2) := (input.attrs.ghostsAttrs.flatMap (·.attr.ghostData)).foldl (fun (st : GroupPaths × List FieldContainer) g =>
+  -- struct-level ghosts that open a group of their own: only those of the instruction selected for this counterpart and kind
+  let (_, fields2) := ((input.attrs.ghostsAttr ctx.ty ctx.kind).toList.flatMap (·.ghostData)).foldl (fun (st : GroupPaths × List FieldContainer) g =>
     let path := match g.childPath with | some c => c.strs.getLast?.getD "" | none => ""
     let (gp, fc, isNew) := makeTuple st.1 path (.ghostData g)
     (gp, if isNew then st.2 ++ [fc] else st.2)) (gp1, fields1)
